@@ -578,3 +578,23 @@ pub fn run(seed: u64, count: usize, tier: &str, sink: &mut Sink) {
         one_history(&mut rng, sink, n_ops, i % 4 == 3);
     }
 }
+
+/// Replay: read forest requests (without the `forest ` prefix, optionally followed by
+/// ` -> recorded response`) from stdin and execute them on a fresh session.
+pub fn exec_stdin(sink: &mut Sink) {
+    use std::io::BufRead;
+    let mut s = Session::new();
+    let stdin = std::io::stdin();
+    for line in stdin.lock().lines() {
+        let line = line.unwrap();
+        let req = line.split(" -> ").next().unwrap().trim().to_string();
+        if req.is_empty() {
+            continue;
+        }
+        let req = req.strip_prefix("forest ").unwrap_or(&req).to_string();
+        if guarded(|| s.exec(sink, &req)).is_none() {
+            sink.emit(format!("forest {}", req), "harness-panic".into());
+            break;
+        }
+    }
+}
